@@ -131,7 +131,9 @@ def run(prog: Program, rep: Report, tier: str) -> None:
                 rep.check_term(canon(got) == canon(want), strip_known(got), "R10.2", f"record {k}: {fname}", where,
                           f"{fname} of record {k} is {T.show(got)[:240]}; expected {T.show(want)[:240]}", key=f"R10.2|{fname}")
         rep.sample({"record0": {k_: T.show(v)[:160] for k_, v in o.state.heap[items[0][1]].fields.items()}})
-    for key in (f"{PARSER}:get_schedules", f"{TOOLS}:hexadecimale_timestamp_to_localtime", f"{TOOLS}:bit_summary_to_days", f"{PARSER}:ScheduleParser.get_start_time", f"{PARSER}:ScheduleParser.get_end_time"):
+    listing_keys = [f"{PARSER}:get_schedules", f"{TOOLS}:hexadecimale_timestamp_to_localtime", f"{TOOLS}:bit_summary_to_days", f"{PARSER}:ScheduleParser.get_start_time", f"{PARSER}:ScheduleParser.get_end_time"]
+    listing_keys += [k_ for k_ in sorted(I.functions_visited) if k_ not in listing_keys]   # everything the listing actually runs through
+    for key in listing_keys:
         f_ = prog.func(key)
         decos = [d for d in f_.decorators if any(x in d.split("(")[0].split(".")[-1] for x in ("cache", "lru_cache", "cached_property", "memoize"))]
         rep.check(not decos, "R10.5", f"{f_.qualname} not memoised", f"{loc(f_, f_.node)} {f_.qualname}", f"{f_.qualname} is decorated with {decos}: a listing parsed after the host zone changed (or another reply with the same bytes) returns stale values", key=f"R10.5|{f_.qualname}")
